@@ -314,14 +314,21 @@ func (s *Segment) writePtr(off address, src Ptr, forceCopy bool) error {
 			return nil
 		}
 		if forceCopy || src.seg.msg != s.msg || st.flags&isListMember != 0 {
-			newSeg, newAddr, err := alloc(s, st.size.totalSize())
+			// A list member can have a data section that is not a whole
+			// number of words (List.Struct(i) of a 1-, 2- or 4-byte list).
+			// The copy is a struct in its own right: pad its data section
+			// to a word (copyStruct zero-extends) so that the pointer can
+			// be encoded.
+			sz := st.size
+			sz.DataSize = sz.DataSize.padToWord()
+			newSeg, newAddr, err := alloc(s, sz.totalSize())
 			if err != nil {
 				return annotate(err).errorf("write pointer: copy")
 			}
 			dst := Struct{
 				seg:        newSeg,
 				off:        newAddr,
-				size:       st.size,
+				size:       sz,
 				depthLimit: maxDepth,
 				// clear flags
 			}
